@@ -1156,6 +1156,62 @@ def c_sizing_lookbehind(repo):
     return {'tokens': src(t)}
 
 
+@control(['C13', 'C01'], 'position-defaulted-when-falsy', ['R13.g'], 'store `position or -1` in the expression constructor')
+def c_position_or(repo):
+    t = parse(repo, 'data')
+    fn = find_func(t, '__init__', cls='TexExpr')
+    for n in ast.walk(fn):
+        if isinstance(n, ast.Assign) and isinstance(n.targets[0], ast.Attribute) and n.targets[0].attr == 'position':
+            n.value = ast.BoolOp(ast.Or(), [n.value, ast.Constant(-1)])
+            return {'data': src(t)}
+    raise NotApplicable('position store')
+
+
+@control(['C03'], 'node-gains-a-public-method', ['R03.d'], 'add a public method `index` to the node class')
+def c_node_index(repo):
+    t = parse(repo, 'data')
+    for c in t.body:
+        if isinstance(c, ast.ClassDef) and c.name == 'TexNode':
+            c.body.append(ast.parse('def index(self, node):\n    return list(self.contents).index(node)').body[0])
+            return {'data': src(t)}
+    raise NotApplicable('TexNode')
+
+
+@control(['C09'], 'form-feed-is-a-blank', ['R09.i'], 'categorise form feed as a blank')
+def c_formfeed_spacer(repo):
+    t = parse(repo, 'category')
+    for n in ast.walk(t):
+        if isinstance(n, ast.Dict):
+            for k, v in zip(n.keys, n.values):
+                if isinstance(k, ast.Attribute) and k.attr == 'Spacer' and isinstance(v, ast.Tuple):
+                    v.elts.append(ast.Constant('\x0c'))
+                    return {'category': src(t)}
+    raise NotApplicable('Spacer entry')
+
+
+@control(['C18'], 'extend-validates-in-a-first-pass', ['R18.h'], 'walk the argument of extend twice')
+def c_extend_twice(repo):
+    t = parse(repo, 'data')
+    fn = find_func(t, 'extend', cls='TexArgs')
+    p_ = fn.args.args[1].arg
+    pre = ast.parse('for _a in %s:\n    pass' % p_).body[0]
+    i = 1 if fn.body and isinstance(fn.body[0], ast.Expr) and isinstance(fn.body[0].value, ast.Constant) else 0
+    fn.body.insert(i, pre)
+    return {'data': src(t)}
+
+
+@control(['C05', 'C15'], 'multi-insert-skips-an-item', ['R05.c'], 'skip empty strings inside the multi-item insert loop')
+def c_insert_skip(repo):
+    t = parse(repo, 'data')
+    fn = find_func(t, 'insert', cls='TexExpr')
+    for n in ast.walk(fn):
+        if isinstance(n, ast.For) and 'enumerate' in ast.unparse(n.iter):
+            var = n.target.elts[1].id
+            n.body.insert(0, ast.parse('if not %s:\n    continue' % var).body[0])
+            return {'data': src(t)}
+    raise NotApplicable('enumerate loop')
+
+
 # ---- argument lists (C18)
 
 @control(['C18'], 'reverse-forgets-shadow', ['R18.a'], 'reverse only the list proper')
